@@ -9,6 +9,7 @@
    that moment); [app s] is what the application received from PDU();
    [sending s] the PDU Watch is handing over right now. *)
 From V Require Import Model.Base Model.ConnLTS Model.ConnRun Proofs.ConnBase Proofs.ConnC16 Proofs.ConnFrag.
+From V Require Import Proofs.ConnSched.
 Open Scope N_scope.
 
 (* In every reachable state, for any trace, any number of callers:
@@ -75,7 +76,22 @@ Example C16_example :
             c_mail (callers s 0%nat) = Some (2147483652, 7%Z) /\ wpc s = WTop /\ inbound s = [].
 Proof. exact c16_example. Qed.
 
+(* The tie between this model and the implementation.  Every forced schedule the
+   harness runs on the real Conn is evaluated as [sched_admits fixed auto groups
+   snapshots final] (for C05: [sched_env_admits]: additionally within the hypotheses of C05).
+   What a [true] means: SOME trace of [step] from [init] — one resolution of the
+   internal choices no property decides (R1 a select with two ready cases, R2 the
+   order in which waiting senders reach the transport, R3 a hand-over racing
+   Done()) — ends in a state showing exactly what the implementation showed
+   (results of all calls, PDU() deliveries, every transport Write with its octets,
+   Watch / Done() / keep-alive).  The search that finds the trace is not trusted. *)
+Theorem C16_tie_sound : forall v auto groups snaps final,
+  sched_admits v auto groups snaps final = true ->
+  exists tr s, run v init tr = Some s /\ reachable v s /\ beq_obs (observe s) final = true.
+Proof. exact sched_admits_sound. Qed.
+
 Print Assumptions C16_dispatch.
 Print Assumptions C16_nack.
 Print Assumptions C16_continue.
 Print Assumptions C16_fragmentation.
+Print Assumptions C16_tie_sound.
